@@ -325,7 +325,7 @@ func genRefCase(r *Rng, out *outFiles) {
 func genRemoveRef(r *Rng, out *outFiles) {
 	cfg := tmplCfg{ap: r.Pick([]string{":", ":", "v-", "th:"}), tp: "t:", global: map[string]any{}}
 	type child struct {
-		src, outp string
+		src, outp  string
 		tag, blank bool
 	}
 	pool := []child{
